@@ -110,6 +110,7 @@ def worker(job):
         out.update(res.as_dict())
         out["functions"] = getattr(inst, "functions", [])
         out["assumptions"] = getattr(inst, "assumptions", [])
+        out["method_note"] = getattr(inst, "method_note", None)
         out["src"] = getattr(getattr(inst, "prog", None), "src", None)
         missing = [t for t in getattr(inst, "expect_tags", []) if not res.tags.get(t)]
         out["vacuous_tags"] = missing if res.exhausted else []
